@@ -10,7 +10,11 @@
 (* and prints the expected outcome table (one INFO line per statement x configuration).       *)
 (* Constant Mutant injects the code mutants of the check into the mechanism to show that the  *)
 (* invariants can fail (witness runs in the driver): "" | "prefix" | "skip-dotted" |          *)
-(* "bind-first".                                                                              *)
+(* "bind-first" | "bind-globals".                                                             *)
+(* Round 3: the eval / exec routes carry namespace arguments (ImportCore!NsForms); the        *)
+(* mechanism sets up the evaluator's local / global mapping from them (Setup) and binds into   *)
+(* the local one; sc records per mapping ("script", "g", "l") what was bound.  "funcexec" =    *)
+(* exec called inside a function body with explicit namespaces.                               *)
 EXTENDS ImportCore, TLC, Json
 CONSTANT Mutant
 
@@ -42,14 +46,27 @@ Stmts ==
   { [form |-> "import", clauses |-> <<c>>, truth |-> <<TruthOfClause(c)>>] : c \in ImportClauses } \cup
   { [form |-> "import", clauses |-> <<c, d>>, truth |-> <<TruthOfClause(c), TruthOfClause(d)>>] : c \in { x \in ImportClauses : x.as = "-" }, d \in Second } \cup
   { [form |-> "from", clauses |-> <<c>>, truth |-> <<TruthOfClause(c)>>] : c \in UNION { FromClauses(m) : m \in Mods } }
-Vias == {"direct", "func", "exec", "evalexec", "eval"}
+Vias == {"direct", "func", "exec", "evalexec", "eval", "funcexec"}
+\* explicit namespaces multiply the statement space by 20: there one module of every kind (allowed, refused, dotted,
+\* shadowing an allowed / a refused module, submodule of a pyscript package, app package, stubs) and a fixed second clause
+ModsNs == {"math", "os", "os.path", "json", "socket", "pk.sub", "app1", "stubs"}
+StmtsNs == { s \in Stmts : s.clauses[1].mod \in ModsNs /\ (Len(s.clauses) = 1 \/ s.clauses[2].mod = "os") }
 
-VARIABLES cs, k, phase, sc, ex, loaded
-vars == <<cs, k, phase, sc, ex, loaded>>
+VARIABLES cs, k, phase, sc, ex, loaded, symt, globt
+vars == <<cs, k, phase, sc, ex, loaded, symt, globt>>
+\* "lost" = a private copy of the local mapping that nobody sees afterwards (exec with default locals)
+Nothing == [q \in Places \cup {"lost"} |-> {}]
+AllBound == UNION { sc[q] : q \in Places }
 
-Init == /\ cs \in { [form |-> s.form, clauses |-> s.clauses, truth |-> s.truth, via |-> v, ctx |-> x, allow_all |-> a] :
-                      s \in Stmts, v \in Vias, x \in {"file", "app"}, a \in BOOLEAN }
-        /\ k = 1 /\ phase = "parse" /\ sc = {} /\ ex = "none" /\ loaded = {}
+Configs(SS, V, NN) == { [form |-> s.form, clauses |-> s.clauses, truth |-> s.truth, via |-> v, ns |-> n, ctx |-> x, allow_all |-> a] :
+                         s \in SS, v \in V, n \in NN, x \in {"file", "app"}, a \in BOOLEAN }
+\* (with namespace arguments: app packages from the app context, everything else from a script file)
+NsCtxOK(c) == c.ctx = IF c.clauses[1].mod = "app1" THEN "app" ELSE "file"
+Init == /\ cs \in Configs(Stmts, Vias \ {"funcexec"}, {NsNone})
+                   \cup { c \in Configs(StmtsNs, {"exec", "evalexec", "funcexec"}, NsExplicit) : NsCtxOK(c) }
+                   \cup { c \in Configs(StmtsNs, {"eval"}, {[g |-> "empty", l |-> "-"], [g |-> "globals", l |-> "locals"], [g |-> "data", l |-> "data"]}) : NsCtxOK(c) }
+        /\ k = 1 /\ phase = "parse" /\ sc = Nothing /\ ex = "none" /\ loaded = {}
+        /\ symt = "script" /\ globt = "script"
 
 Cl == cs.clauses[k]
 \* the rule as the mechanism applies it (mutants weaken it)
@@ -60,55 +77,76 @@ Passes(c) == cs.allow_all \/ OnList(c) \/ (Mutant = "skip-dotted" /\ cs.form = "
 Names(c) == IF cs.form = "import" THEN {IF c.as # "-" THEN c.as ELSE c.mod}
             ELSE IF c.name = "*" THEN ToSet(cs.truth[k].star) ELSE {IF c.as # "-" THEN c.as ELSE c.name}
 ExcName(e) == IF e = "refused" THEN Refusal ELSE e
+\* the mapping the mechanism binds into: the evaluator's local one (mutant: the global one)
+BindT == IF Mutant = "bind-globals" THEN globt ELSE symt
 
+\* the evaluator of the text: its global mapping is the one passed (else the caller's), its local mapping the
+\* locals passed, else the globals passed, else the caller's (eval_func in eval.py); `globals()` is the script's
+\* table, `locals()` at module level too, inside a function a snapshot (another object)
+SetupG == IF cs.ns.g = "-" THEN "script" ELSE IF cs.ns.g = "globals" THEN "script" ELSE "g"
+SetupL == IF cs.ns.g = "-" THEN "script"
+          ELSE IF cs.ns.l = "-" THEN SetupG
+          ELSE IF cs.ns.l = "same" THEN SetupG
+          ELSE IF cs.ns.l = "locals" THEN (IF cs.via = "funcexec" THEN "l" ELSE "script")
+          ELSE "l"
+\* eval(exec(stmt)): the exec inside the text has no arguments - it inherits the eval's mappings; where the local one
+\* is not the global one it works on a copy (default locals)
 Parse == /\ phase = "parse"
          /\ IF cs.via = "eval" THEN phase' = "done" /\ ex' = "SyntaxError" ELSE phase' = "resolve" /\ ex' = ex
+         /\ globt' = SetupG /\ symt' = IF cs.via = "evalexec" /\ SetupL # SetupG THEN "lost" ELSE SetupL
          /\ UNCHANGED <<cs, k, sc, loaded>>
 Resolve == /\ phase = "resolve"
            /\ IF cs.form = "from" /\ IsStub(Cl) THEN phase' = "done" /\ ex' = "ok"
               ELSE IF IsPyscriptModule(Cl, cs.ctx, E0) THEN phase' = "load" /\ ex' = ex
               ELSE phase' = "check" /\ ex' = ex
-           /\ sc' = IF Mutant = "bind-first" /\ ~(cs.form = "from" /\ IsStub(Cl)) THEN sc \cup Names(Cl) ELSE sc
-           /\ UNCHANGED <<cs, k, loaded>>
+           /\ sc' = IF Mutant = "bind-first" /\ ~(cs.form = "from" /\ IsStub(Cl)) THEN [sc EXCEPT ![BindT] = @ \cup Names(Cl)] ELSE sc
+           /\ UNCHANGED <<cs, k, loaded, symt, globt>>
 Check == /\ phase = "check"
          /\ IF Passes(Cl) THEN phase' = "load" /\ ex' = ex ELSE phase' = "done" /\ ex' = "refused"
-         /\ UNCHANGED <<cs, k, sc, loaded>>
+         /\ UNCHANGED <<cs, k, sc, loaded, symt, globt>>
 Load == /\ phase = "load"
         /\ IF cs.truth[k].imp = "ok" THEN phase' = "bind" /\ ex' = ex /\ loaded' = loaded \cup {Cl.mod}
            ELSE phase' = "done" /\ ex' = cs.truth[k].imp /\ loaded' = loaded
-        /\ UNCHANGED <<cs, k, sc>>
+        /\ UNCHANGED <<cs, k, sc, symt, globt>>
 Bind == /\ phase = "bind"
-        /\ sc' = sc \cup Names(Cl)
+        /\ sc' = [sc EXCEPT ![BindT] = @ \cup Names(Cl)]
         /\ IF k < Len(cs.clauses) THEN k' = k + 1 /\ phase' = "resolve" /\ ex' = ex
            ELSE k' = k /\ phase' = "done" /\ ex' = "ok"
-        /\ UNCHANGED <<cs, loaded>>
+        /\ UNCHANGED <<cs, loaded, symt, globt>>
 Next == Parse \/ Resolve \/ Check \/ Load \/ Bind
 Spec == Init /\ [][Next]_vars
 
 RefusedClause(j) == ~Allowed(cs.clauses[j], cs.ctx, cs.allow_all, E0) /\ ~(cs.form = "from" /\ IsStub(cs.clauses[j]))
 AllNames(j) == UNION NamesOf(cs.form, cs.clauses[j], cs.truth[j], {})
 RefusedBindsNothing == \A j \in 1..Len(cs.clauses) : RefusedClause(j) /\ ~(\E i \in 1..Len(cs.clauses) : i # j /\ AllNames(i) \cap AllNames(j) # {})
-                                                        => sc \cap AllNames(j) = {}
+                                                        => AllBound \cap AllNames(j) = {}
 AllowedIffRule == phase = "done" =>
-   /\ Out(ExcName(ex), sc) \in Outcomes(cs, E0, {})
+   /\ Out(ExcName(ex), AllBound) \in Outcomes(cs, E0, {})
    /\ cs.via # "eval" => (ex = "refused" <=> RefusedClause(k))
-StubsIgnored == phase = "done" /\ cs.via # "eval" /\ cs.form = "from" /\ IsStub(cs.clauses[1]) => ex = "ok" /\ sc = {} /\ loaded = {}
+\* in every state, whatever is bound is bound in the mapping the call designates and nowhere else
+BoundWhereDesignated == \A q \in Places : q # Place(cs.via, cs.ns) => sc[q] = {}
+StubsIgnored == phase = "done" /\ cs.via # "eval" /\ cs.form = "from" /\ IsStub(cs.clauses[1]) => ex = "ok" /\ AllBound = {} /\ loaded = {}
 ShadowResolvesToPyscript == phase = "bind" /\ IsPyscriptModule(Cl, cs.ctx, E0) => ClassOf(cs, E0, Cl) \in {"pysmod:" \o p.ctxname : p \in E0.pys} \cup {"attr:pysmod:" \o p.ctxname : p \in E0.pys}
 
 \* expected outcome table: one line per final state; the w_* fields are the witnesses that the
 \* antecedents of the invariants are not vacuous (the driver requires each to occur)
 Table == phase = "done" =>
    PrintT("INFO " \o ToJson([form |-> cs.form, mods |-> [j \in 1..Len(cs.clauses) |-> cs.clauses[j].mod], as |-> cs.clauses[1].as,
-                             name |-> cs.clauses[1].name, via |-> cs.via, ctx |-> cs.ctx, allow_all |-> cs.allow_all,
-                             exc |-> ExcName(ex), bound |-> sc,
+                             name |-> cs.clauses[1].name, via |-> cs.via, ns |-> cs.ns, ctx |-> cs.ctx, allow_all |-> cs.allow_all,
+                             exc |-> ExcName(ex), bound |-> AllBound, place |-> Place(cs.via, cs.ns),
+                             w_ns_g    |-> sc["g"] # {},
+                             w_ns_l    |-> sc["l"] # {},
+                             w_ns_script |-> cs.ns # NsNone /\ sc["script"] # {},
+                             w_ns_refused |-> cs.ns # NsNone /\ ex = "refused",
+                             w_ns_lost |-> sc["lost"] # {},
                              w_refused |-> ex = "refused",
                              w_shadow  |-> ex = "ok" /\ \E j \in 1..Len(cs.clauses) : IsPyscriptModule(cs.clauses[j], cs.ctx, E0) /\ cs.clauses[j].mod \in Installed,
                              w_stub    |-> cs.form = "from" /\ IsStub(cs.clauses[1]) /\ cs.via # "eval",
-                             w_partial |-> ex = "refused" /\ sc # {}]))
+                             w_partial |-> ex = "refused" /\ AllBound # {}]))
 
 \* witnesses (must be violated): the antecedents above are not vacuous
 W_NeverRefused   == ~(phase = "done" /\ ex = "refused")
 W_NeverShadow    == ~(phase = "bind" /\ IsPyscriptModule(Cl, cs.ctx, E0) /\ Cl.mod \in Installed)
 W_NeverStub      == ~(phase = "done" /\ cs.form = "from" /\ IsStub(cs.clauses[1]) /\ cs.via # "eval")
-W_NeverPartial   == ~(phase = "done" /\ ex = "refused" /\ sc # {})
+W_NeverPartial   == ~(phase = "done" /\ ex = "refused" /\ AllBound # {})
 =============================================================================
